@@ -7,3 +7,5 @@ if [ -n "$(git status --porcelain)" ]; then echo "/repo not clean"; exit 2; fi
 git apply "$patch" || { echo "patch does not apply"; exit 2; }
 (cd /verif && ./check "$prop" --tier "$tier" 2>&1 | grep -v "no longer checks" | tail -${4:-6} | cut -c1-400)
 git checkout -- . && git clean -fdq
+# bring the regenerated facts back in line with the restored tree
+(cd /verif/go/extract && GOFLAGS=-mod=mod GOPROXY=off GOTOOLCHAIN=local go run . -repo /repo -out /verif/lean/Gengo/Generated)
